@@ -112,6 +112,11 @@ func (x *Exec) Run() (err error) {
 				x.warn("waiver %s at %q unused", wv.Kind, wv.Text)
 			}
 		}
+		for _, ap := range x.contract.Applies {
+			if !x.appliesDone[ap] {
+				panic(unsupported("apply anchor for lemma " + ap.Lemma + " not found (contract-anchor-lost)"))
+			}
+		}
 		for _, a := range x.contract.Asserts {
 			if !x.assertsDone[a] {
 				panic(unsupported("assert anchor \"" + a.Text + "\" not found (contract-anchor-lost)"))
@@ -336,6 +341,7 @@ func (x *Exec) runBlock(b *ssa.BasicBlock) {
 
 	for _, ins := range b.Instrs {
 		x.curInstr = ins
+		x.maybeApply(ins)
 		x.maybeAssert(ins)
 		x.maybeCut(ins)
 		x.step(ins, preds, conds)
@@ -405,6 +411,63 @@ func (x *Exec) maybeCut(ins ssa.Instruction) {
 		x.curPC = npc
 		o := x.oblige(cid+"/cover", "cover", npc, tFalse, "cut assumption satisfiable", pos)
 		o.MustFail = true
+	}
+}
+
+// applyLemma proves the hypotheses of a lemma instance at the current point and assumes its conclusion.
+func (x *Exec) applyLemma(ap *ApplySpec, pos token.Pos, id string) {
+	var lem *Lemma
+	for _, l := range x.w.contracts.Lemmas {
+		if l.Name == ap.Lemma {
+			lem = l
+		}
+	}
+	if lem == nil {
+		panic(unsupported("apply: unknown lemma " + ap.Lemma))
+	}
+	if len(lem.Vars) != len(ap.Args) {
+		panic(unsupported(fmt.Sprintf("apply %s: %d arguments for %d variables", ap.Lemma, len(ap.Args), len(lem.Vars))))
+	}
+	cenv := x.envAt(pos)
+	lenv := &Env{vars: map[string]Val{}}
+	for k, lv := range lem.Vars {
+		v := x.evalIn(ap.Args[k], cenv)
+		if l, ok := v.(Leaf); ok {
+			t := x.ev.specOf(l)
+			if lv.Sort == "real" {
+				t = realOfInt(t)
+			}
+			v = Leaf{T: x.vc.define("arg_"+lv.Name, t)}
+		}
+		lenv.vars[lv.Name] = v
+	}
+	for k, h := range lem.Hyps {
+		t := x.evalBool(h, lenv)
+		x.oblige(fmt.Sprintf("%s/hyp/%d", id, k+1), "lemma-hyp", x.curPC, t, ap.Lemma+": "+h.Text, pos)
+	}
+	g := x.evalBool(lem.Goal, lenv)
+	x.vc.assume(mkImp(x.curPC, g))
+	x.w.noteLemmaUse(ap.Lemma)
+}
+
+func (x *Exec) maybeApply(ins ssa.Instruction) {
+	if x.contract == nil || len(x.contract.Applies) == 0 {
+		return
+	}
+	pos := ins.Pos()
+	if !pos.IsValid() {
+		return
+	}
+	text := x.lineText(pos)
+	for k, ap := range x.contract.Applies {
+		if ap.Loop != 0 || x.appliesDone[ap] || !strings.Contains(text, ap.Text) {
+			continue
+		}
+		if x.cutLine(&CutSpec{Text: ap.Text, Ord: ap.Ord}) != x.w.fset.Position(pos).Line {
+			continue
+		}
+		x.appliesDone[ap] = true
+		x.applyLemma(ap, pos, fmt.Sprintf("apply/%d", k+1))
 	}
 }
 
@@ -500,8 +563,16 @@ func (x *Exec) enterLoop(li *loopInfo) {
 		}
 	}
 	pos := x.loopPos(li)
-	env := x.envAt(pos)
 	id := fmt.Sprintf("loop%d", li.ordinal)
+	if x.contract != nil {
+		for k, ap := range x.contract.Applies {
+			if ap.Loop == li.ordinal {
+				x.appliesDone[ap] = true
+				x.applyLemma(ap, pos, fmt.Sprintf("%s/apply/%d", id, k+1))
+			}
+		}
+	}
+	env := x.envAt(pos)
 	if li.spec != nil {
 		for i, inv := range li.spec.Invariants {
 			t := x.evalBool(inv, env)
@@ -522,6 +593,10 @@ func (x *Exec) enterLoop(li *loopInfo) {
 	}
 	if li.spec != nil {
 		env = x.envAt(pos)
+		if li.spec.Isolate {
+			x.curPC = x.vc.fresh("pc_loop", sortBool)
+			x.pcs[li.header] = x.curPC
+		}
 		for _, inv := range li.spec.Invariants {
 			t := x.evalBool(inv, env)
 			x.vc.assume(mkImp(x.curPC, t))
@@ -532,6 +607,7 @@ func (x *Exec) enterLoop(li *loopInfo) {
 			li.hasDec = true
 		}
 	}
+	li.head = x.cur.clone()
 	// cover probe: loop body reachable
 	o := x.oblige(id+"/cover", "cover", x.curPC, tFalse, "loop head reachable under invariant", pos)
 	o.MustFail = true
